@@ -44,9 +44,11 @@ def quoted_at(buf: bytes, pos: int) -> bytes | None:
     return None
 
 
-def token_values(bufs: list[bytes]) -> set[bytes]:
+def token_values(bufs: list[bytes]) -> tuple[set[bytes], set[bytes]]:
     """Values an atom / astring / string parse can produce somewhere in the
-    buffers (line first, then the continuations)."""
+    buffers (line first, then the continuations): (atoms and quoted strings,
+    everything including literal payloads)."""
+    small: set[bytes] = set()
     vals: set[bytes] = set()
     conts = bufs[1:]
     for buf in bufs:
@@ -59,12 +61,12 @@ def token_values(bufs: list[bytes]) -> set[bytes]:
                     if part:
                         vals.add(part)
             for a in ATOM.finditer(run):
-                vals.add(a.group(0))
+                small.add(a.group(0))
         for i, c in enumerate(buf):
             if c == 0x22:
                 q = quoted_at(buf, i)
                 if q is not None:
-                    vals.add(q)
+                    small.add(q)
         for m in LITERAL.finditer(buf):
             digits = m.group(1)
             if len(digits) > 4300:
@@ -77,7 +79,8 @@ def token_values(bufs: list[bytes]) -> set[bytes]:
                 for c in conts:
                     if len(c) >= n:
                         vals.add(c[:n])
-    return vals
+    vals |= small
+    return small, vals
 
 
 def charset_candidates(bufs: list[bytes], vals: set[bytes]) -> set[bytes]:
@@ -139,21 +142,22 @@ def o_decode(charset: bytes, v: bytes) -> int:
         return 0
 
 
-def build_table(bufs: list[bytes], max_value_len: int = 200) -> list[tuple[int, bytes, bytes, int]]:
-    vals = token_values(bufs)
-    table: list[tuple[int, bytes, bytes, int]] = []
-    charsets = charset_candidates(bufs, vals)
-    for v in sorted(vals):
-        table.append((0, b'', v, o_datetime(v)))
-        table.append((1, b'', v, o_date(v)))
-    for c in sorted(charsets):
+def build_table(bufs: list[bytes]):
+    small, vals = token_values(bufs)
+    dates = [(v, o_datetime(v), o_date(v)) for v in sorted(small)]
+    charsets = []
+    decodes = []
+    for c in sorted(charset_candidates(bufs, vals)):
         ans = o_charset(c)
-        table.append((2, b'', c, ans))
+        charsets.append((c, ans))
         if ans == 1:
             for v in sorted(vals):
-                table.append((3, c, v, o_decode(c, v)))
-    return table
+                decodes.append((c, v, o_decode(c, v)))
+    return dates, charsets, decodes
 
 
 def enc_table(table) -> str:
-    return T.lst(T.pair(T.N(k), T.bytes_(c), T.bytes_(v), T.N(a)) for k, c, v, a in table)
+    dates, charsets, decodes = table
+    return ('(mk_table ' + T.lst(T.pair(T.bytes_(v), T.N(a), T.N(b)) for v, a, b in dates) + ' '
+            + T.lst(T.pair(T.bytes_(c), T.N(a)) for c, a in charsets) + ' '
+            + T.lst(T.pair(T.bytes_(c), T.bytes_(v), T.N(a)) for c, v, a in decodes) + ')')
